@@ -124,7 +124,8 @@ def check_request(obs, data, parts, opts, drawn, tag):
     if sorted(got_custom) != sorted(want_custom):
         none_leak = any(v in ("None",) for _, v in got_custom)
         obs.fail(f"{tag}|custom-headers{'|none-value-emitted' if none_leak else ''}", f"custom fields {got_custom}, option gives {want_custom}")
-    if HAVE_WEBSOCKETS and not obs.fails and (not opts.get("connection") or "upgrade" in rm.tokens(opts["connection"])):
+    # (the independent server has its own line-length limits: it is consulted for ordinary-sized requests only)
+    if HAVE_WEBSOCKETS and not obs.fails and len(data) < 4000 and (not opts.get("connection") or "upgrade" in rm.tokens(opts["connection"])):
         try:
             sp_ = _SP()
             sp_.receive_data(data)
@@ -222,7 +223,7 @@ def run_case(case):
 
 
 hname = st.sampled_from(["User-Agent", "X-Custom", "Authorization", "x-lower", "X-Trace-Id", "Accept-Language"])
-hval = st.one_of(st.sampled_from(["v", "Bearer abc.def", "a: b", "1;q=0.5, x", "ü"]), st.text(alphabet="abcXYZ0123 -_=;,:/", min_size=1, max_size=12).map(str.strip).filter(bool))
+hval = st.one_of(st.sampled_from(["v", "Bearer abc.def", "a: b", "1;q=0.5, x", "ü", "Bearer " + "t" * 17000, "x" * 70000]), st.text(alphabet="abcXYZ0123 -_=;,:/", min_size=1, max_size=12).map(str.strip).filter(bool))
 
 
 @st.composite
@@ -241,7 +242,7 @@ def cases(draw):
     if draw(st.integers(0, 3)) == 0:
         o["subprotocols"] = draw(st.sampled_from([["a"], ["chat", "v2.x"], ["mqtt", "wamp.2.json", "x"]]))
     if draw(st.integers(0, 3)) == 0:
-        o["cookie"] = draw(st.sampled_from(["sid=abc", "sid=abc; t=1", "k=\"quoted value\""]))
+        o["cookie"] = draw(st.sampled_from(["sid=abc", "sid=abc; t=1", "k=\"quoted value\"", "big=" + "c" * 20000, "t=" + "0123456789abcdef" * 1100]))
     m = draw(st.integers(0, 5))
     if m == 0:
         pairs = draw(st.lists(st.tuples(hname, hval), min_size=1, max_size=3, unique_by=lambda t: t[0].lower()))
